@@ -24,6 +24,7 @@ def _one(mon, mode, work, shard, nshards, histories, maxlen, flavour, extra, val
            '--out', out, '--lastcall', last] + list(extra)
     env = san_env(logbase) if flavour != 'plain' else dict(os.environ)
     if valgrind:
+        env = dict(env, XV_UNDER_VALGRIND='1')
         vlog = os.path.join(work, 'vg.%s.s%d.log' % (mode, shard))
         cmd = ['valgrind', '--error-exitcode=96', '--leak-check=full', '--errors-for-leak-kinds=definite,indirect',
                '--track-origins=yes', '-q', '--log-file=' + vlog] + cmd
